@@ -139,7 +139,7 @@ inline void note_step(vrt::Ctl& c, int t) {          // call before c.step(t)
 // ---- schedule drivers that honour the seam's blocking predicate (same shape as vrt::run_*)
 // Deadlock = no thread is really runnable; a possible spurious wake-up never counts as progress.
 template <class Choose>
-vrt::RunResult drive_all(vrt::Ctl& c, Choose&& choose, long maxSteps = 200000) {
+vrt::RunResult drive_all(vrt::Ctl& c, Choose&& choose, long maxSteps = 20000) {
   vrt::RunResult r; int last = -1;
   while ((long)r.steps.size() < maxSteps) {
     auto en = enabled_set(c);
